@@ -18,6 +18,8 @@ import Mathlib.Tactic.Ring
 namespace C20
 set_option linter.unusedSectionVars false
 set_option linter.unusedVariables false
+set_option linter.unusedTactic false
+set_option linter.unreachableTactic false
 variable {K : Type} [Field K] [LinearOrder K]
 
 /-- `euler_heun_s_additive_11` with two batch rows: row b of the output = the one-row step on row b of the inputs -/
@@ -367,6 +369,42 @@ theorem log_ode_s_scalar_11_b2_no_crosstalk (f : K → K → K) (g : K → K →
     Gen.log_ode_s_scalar_11_b2_y1_0_0 f g t0 t1 y0_0_0 y0_1_0 dW_0_0 dW_1_0 U_0_0 U_1_0 A_0_0_0 A_1_0_0 = Gen.log_ode_s_scalar_11_b2_y1_0_0 f g t0 t1 y0_0_0 y0_1_0' dW_0_0 dW_1_0' U_0_0 U_1_0' A_0_0_0 A_1_0_0' ∧
     Gen.log_ode_s_scalar_11_b2_y1_1_0 f g t0 t1 y0_0_0 y0_1_0 dW_0_0 dW_1_0 U_0_0 U_1_0 A_0_0_0 A_1_0_0 = Gen.log_ode_s_scalar_11_b2_y1_0_0 f g t0 t1 y0_1_0 y0_0_0 dW_1_0 dW_0_0 U_1_0 U_0_0 A_1_0_0 A_0_0_0 := by
   constructor <;> simp only [Gen.log_ode_s_scalar_11_b2_y1_0_0, Gen.log_ode_s_scalar_11_b2_y1_1_0] <;> ring
+
+/-- `lqrow_euler_i_diagonal_11` with two batch rows: row b of the output = the one-row step on row b of the inputs -/
+theorem lqrow_euler_i_diagonal_11_b2_rowwise (sgn : K → K) (f : K → K → K) (g : K → K → K) (h : K → K → K) (t0 t1 y0_0_0 y0_1_0 l0_0_0 l0_1_0 dW_0_0 dW_0_1 dW_1_0 dW_1_1 : K) :
+    Gen.lqrow_euler_i_diagonal_11_b2_y1_0_0 sgn f g h t0 t1 y0_0_0 y0_1_0 l0_0_0 l0_1_0 dW_0_0 dW_0_1 dW_1_0 dW_1_1
+      = Gen.lqrow_euler_i_diagonal_11_y1_0_0 sgn f g h t0 t1 y0_0_0 l0_0_0 dW_0_0 dW_0_1 ∧
+    Gen.lqrow_euler_i_diagonal_11_b2_y1_0_1 sgn f g h t0 t1 y0_0_0 y0_1_0 l0_0_0 l0_1_0 dW_0_0 dW_0_1 dW_1_0 dW_1_1
+      = Gen.lqrow_euler_i_diagonal_11_y1_0_1 sgn f g h t0 t1 y0_0_0 l0_0_0 dW_0_0 dW_0_1 ∧
+    Gen.lqrow_euler_i_diagonal_11_b2_y1_1_0 sgn f g h t0 t1 y0_0_0 y0_1_0 l0_0_0 l0_1_0 dW_0_0 dW_0_1 dW_1_0 dW_1_1
+      = Gen.lqrow_euler_i_diagonal_11_y1_0_0 sgn f g h t0 t1 y0_1_0 l0_1_0 dW_1_0 dW_1_1 ∧
+    Gen.lqrow_euler_i_diagonal_11_b2_y1_1_1 sgn f g h t0 t1 y0_0_0 y0_1_0 l0_0_0 l0_1_0 dW_0_0 dW_0_1 dW_1_0 dW_1_1
+      = Gen.lqrow_euler_i_diagonal_11_y1_0_1 sgn f g h t0 t1 y0_1_0 l0_1_0 dW_1_0 dW_1_1 := by
+  refine ⟨?_, ?_, ?_, ?_⟩ <;> simp only [Gen.lqrow_euler_i_diagonal_11_b2_y1_0_0, Gen.lqrow_euler_i_diagonal_11_b2_y1_0_1, Gen.lqrow_euler_i_diagonal_11_b2_y1_1_0, Gen.lqrow_euler_i_diagonal_11_b2_y1_1_1, Gen.lqrow_euler_i_diagonal_11_y1_0_0, Gen.lqrow_euler_i_diagonal_11_y1_0_1] <;> ring
+
+/-- row 0 is unaffected by anything in row 1; swapping the rows of the inputs swaps the rows of the output -/
+theorem lqrow_euler_i_diagonal_11_b2_no_crosstalk (sgn : K → K) (f : K → K → K) (g : K → K → K) (h : K → K → K) (t0 t1 y0_0_0 y0_1_0 l0_0_0 l0_1_0 dW_0_0 dW_0_1 dW_1_0 dW_1_1 y0_1_0' l0_1_0' dW_1_0' dW_1_1' : K) :
+    Gen.lqrow_euler_i_diagonal_11_b2_y1_0_0 sgn f g h t0 t1 y0_0_0 y0_1_0 l0_0_0 l0_1_0 dW_0_0 dW_0_1 dW_1_0 dW_1_1 = Gen.lqrow_euler_i_diagonal_11_b2_y1_0_0 sgn f g h t0 t1 y0_0_0 y0_1_0' l0_0_0 l0_1_0' dW_0_0 dW_0_1 dW_1_0' dW_1_1' ∧
+    Gen.lqrow_euler_i_diagonal_11_b2_y1_1_0 sgn f g h t0 t1 y0_0_0 y0_1_0 l0_0_0 l0_1_0 dW_0_0 dW_0_1 dW_1_0 dW_1_1 = Gen.lqrow_euler_i_diagonal_11_b2_y1_0_0 sgn f g h t0 t1 y0_1_0 y0_0_0 l0_1_0 l0_0_0 dW_1_0 dW_1_1 dW_0_0 dW_0_1 := by
+  constructor <;> simp only [Gen.lqrow_euler_i_diagonal_11_b2_y1_0_0, Gen.lqrow_euler_i_diagonal_11_b2_y1_0_1, Gen.lqrow_euler_i_diagonal_11_b2_y1_1_0, Gen.lqrow_euler_i_diagonal_11_b2_y1_1_1] <;> ring
+
+/-- `lqrow_heun_s_diagonal_11` with two batch rows: row b of the output = the one-row step on row b of the inputs -/
+theorem lqrow_heun_s_diagonal_11_b2_rowwise (sgn : K → K) (f : K → K → K) (g : K → K → K) (h : K → K → K) (t0 t1 y0_0_0 y0_1_0 l0_0_0 l0_1_0 dW_0_0 dW_0_1 dW_1_0 dW_1_1 : K) :
+    Gen.lqrow_heun_s_diagonal_11_b2_y1_0_0 sgn f g h t0 t1 y0_0_0 y0_1_0 l0_0_0 l0_1_0 dW_0_0 dW_0_1 dW_1_0 dW_1_1
+      = Gen.lqrow_heun_s_diagonal_11_y1_0_0 sgn f g h t0 t1 y0_0_0 l0_0_0 dW_0_0 dW_0_1 ∧
+    Gen.lqrow_heun_s_diagonal_11_b2_y1_0_1 sgn f g h t0 t1 y0_0_0 y0_1_0 l0_0_0 l0_1_0 dW_0_0 dW_0_1 dW_1_0 dW_1_1
+      = Gen.lqrow_heun_s_diagonal_11_y1_0_1 sgn f g h t0 t1 y0_0_0 l0_0_0 dW_0_0 dW_0_1 ∧
+    Gen.lqrow_heun_s_diagonal_11_b2_y1_1_0 sgn f g h t0 t1 y0_0_0 y0_1_0 l0_0_0 l0_1_0 dW_0_0 dW_0_1 dW_1_0 dW_1_1
+      = Gen.lqrow_heun_s_diagonal_11_y1_0_0 sgn f g h t0 t1 y0_1_0 l0_1_0 dW_1_0 dW_1_1 ∧
+    Gen.lqrow_heun_s_diagonal_11_b2_y1_1_1 sgn f g h t0 t1 y0_0_0 y0_1_0 l0_0_0 l0_1_0 dW_0_0 dW_0_1 dW_1_0 dW_1_1
+      = Gen.lqrow_heun_s_diagonal_11_y1_0_1 sgn f g h t0 t1 y0_1_0 l0_1_0 dW_1_0 dW_1_1 := by
+  refine ⟨?_, ?_, ?_, ?_⟩ <;> simp only [Gen.lqrow_heun_s_diagonal_11_b2_y1_0_0, Gen.lqrow_heun_s_diagonal_11_b2_y1_0_1, Gen.lqrow_heun_s_diagonal_11_b2_y1_1_0, Gen.lqrow_heun_s_diagonal_11_b2_y1_1_1, Gen.lqrow_heun_s_diagonal_11_y1_0_0, Gen.lqrow_heun_s_diagonal_11_y1_0_1] <;> ring
+
+/-- row 0 is unaffected by anything in row 1; swapping the rows of the inputs swaps the rows of the output -/
+theorem lqrow_heun_s_diagonal_11_b2_no_crosstalk (sgn : K → K) (f : K → K → K) (g : K → K → K) (h : K → K → K) (t0 t1 y0_0_0 y0_1_0 l0_0_0 l0_1_0 dW_0_0 dW_0_1 dW_1_0 dW_1_1 y0_1_0' l0_1_0' dW_1_0' dW_1_1' : K) :
+    Gen.lqrow_heun_s_diagonal_11_b2_y1_0_0 sgn f g h t0 t1 y0_0_0 y0_1_0 l0_0_0 l0_1_0 dW_0_0 dW_0_1 dW_1_0 dW_1_1 = Gen.lqrow_heun_s_diagonal_11_b2_y1_0_0 sgn f g h t0 t1 y0_0_0 y0_1_0' l0_0_0 l0_1_0' dW_0_0 dW_0_1 dW_1_0' dW_1_1' ∧
+    Gen.lqrow_heun_s_diagonal_11_b2_y1_1_0 sgn f g h t0 t1 y0_0_0 y0_1_0 l0_0_0 l0_1_0 dW_0_0 dW_0_1 dW_1_0 dW_1_1 = Gen.lqrow_heun_s_diagonal_11_b2_y1_0_0 sgn f g h t0 t1 y0_1_0 y0_0_0 l0_1_0 l0_0_0 dW_1_0 dW_1_1 dW_0_0 dW_0_1 := by
+  constructor <;> simp only [Gen.lqrow_heun_s_diagonal_11_b2_y1_0_0, Gen.lqrow_heun_s_diagonal_11_b2_y1_0_1, Gen.lqrow_heun_s_diagonal_11_b2_y1_1_0, Gen.lqrow_heun_s_diagonal_11_b2_y1_1_1] <;> ring
 
 /-- `midpoint_s_additive_11` with two batch rows: row b of the output = the one-row step on row b of the inputs -/
 theorem midpoint_s_additive_11_b2_rowwise (f : K → K → K) (g : K → K) (t0 t1 y0_0_0 y0_1_0 dW_0_0 dW_1_0 : K) :
